@@ -159,7 +159,16 @@ func (vc *VC) memInit(key, sort string) Term {
 	}
 	name := sanitize(key) + "@0"
 	name = "|" + name + "|"
-	vc.sc.DeclConst(name, vc.memSorts[key])
+	if !vc.sc.declSet[name] {
+		vc.sc.DeclConst(name, vc.memSorts[key])
+		// the entry-state memory holds only references to objects that existed at entry
+		switch vc.memSorts[key] {
+		case "(Array Ref Ref)":
+			vc.sc.Axiom(fmt.Sprintf("(forall ((?ea Ref)) (! (< (birth (root (select %s ?ea))) 0) :pattern ((select %s ?ea))))", name, name))
+		case "(Array Ref Slice)":
+			vc.sc.Axiom(fmt.Sprintf("(forall ((?ea Ref)) (! (< (birth (root (s-ptr (select %s ?ea)))) 0) :pattern ((select %s ?ea))))", name, name))
+		}
+	}
 	return name
 }
 
